@@ -803,6 +803,9 @@ var c06Families = []struct{ name, text string }{
 	{"keyword-and-rule-alike-call", "grammar g; ID = /[a-z]/; start = stmt; stmt = \"call\" ID \";\" | call \";\"; call = ID \"(\" \")\";"},
 	{"keyword-and-rule-alike-under-group", "grammar g; start = (else) \"s\" (\"else\") \"t\"; else = \"e\";"},
 	{"rule-sequence-vs-underscored-rule", "grammar g; start = [label stmt] \"s\" [label_stmt]; label = \"l\"; stmt = \"t\"; label_stmt = \"u\";"},
+	{"comma-separated-arguments", "grammar g; start = \"f\" \"(\" args \")\"; args = args \",\" e | e; e = \"x\" | \"(\" e \")\";"},
+	{"punctuation-terminals-as-lookaheads", "grammar g; start = l \";\" | l \",\" l \".\"; l = l \",\" i | i; i = \"'\" | \"(\" l \")\" | \"[\" l \";\" l \"]\";"},
+	{"quote-and-backslash-terminals", "grammar g; start = s; s = s \"\\\"\" t | t; t = \"\\\\\" | \"(\" s \")\" | \", \" ;"},
 	{"plus-over-alternation", "grammar g; start = {{ \"a\" | \"b\" }} \"c\";"},
 	{"nested-closures", "grammar g; start = { [\"a\"] \"b\" } {{ (\"c\" | \"d\") }};"},
 	{"left-and-right-recursion", "grammar g; start = l r; l = l \"a\" | \"a\"; r = \"b\" r | \"b\";"},
@@ -828,7 +831,7 @@ func genLargeGrammar(r *rng) string {
 // mixed in after the leading terminal.
 func genLLGrammar(r *rng) string {
 	nts := append([]string{"start"}, shuffled(r, []string{"a", "b", "c", "d", "e", "f", "h", "i", "j"})[:3+r.intn(6)]...)
-	terms := shuffled(r, []string{"x", "y", "z", "w", "u", "v", "p", "q"})[:3+r.intn(5)]
+	terms := shuffled(r, []string{"x", "y", "z", "w", "u", "v", "p", "q", ",", ";", ".", "'", "->"})[:3+r.intn(5)]
 	var b strings.Builder
 	b.WriteString("grammar g;\n")
 	for _, n := range nts {
